@@ -47,7 +47,7 @@ Frame(t, n) == [t |-> t, n |-> n, a |-> <<>>, b |-> <<>>, el |-> FALSE]
 NoData == [vars |-> <<>>, conds |-> <<>>, lists |-> <<>>, imgs |-> {}, noise |-> FALSE]
 NoTpl == [body |-> <<>>, ext |-> FALSE, ovr |-> <<>>]
 
-Init == g = [ph |-> "base", st |-> <<Frame("top", "")>>, sz |-> 0, base |-> <<>>, tpl |-> NoTpl, d |-> NoData]
+Init == g = [ph |-> "base", st |-> <<Frame("top", "")>>, sz |-> 0, base |-> <<>>, tpl |-> NoTpl, d |-> NoData, todo |-> <<>>]
 
 Top == g.st[Len(g.st)]
 Cur == IF Top.el THEN Top.b ELSE Top.a
@@ -101,20 +101,20 @@ OpenSet ==
 AppendCur(x) ==
   g' = [g EXCEPT !.st[Len(g.st)] = IF Top.el THEN [Top EXCEPT !.b = Append(@, x)] ELSE [Top EXCEPT !.a = Append(@, x)]]
 
-AddLeaf == /\ g.ph # "done" /\ g.sz < MaxNodes
+AddLeaf == /\ g.ph \in {"base", "ovr"} /\ g.sz < MaxNodes
            /\ \E x \in LeafSet :
                 g' = [g EXCEPT !.st[Len(g.st)] = IF Top.el THEN [Top EXCEPT !.b = Append(@, x)]
                                                              ELSE [Top EXCEPT !.a = Append(@, x)],
                                !.sz = @ + 1]
 
-OpenC == /\ g.ph # "done" /\ g.sz < MaxNodes
+OpenC == /\ g.ph \in {"base", "ovr"} /\ g.sz < MaxNodes
          /\ \E o \in OpenSet :
               g' = [g EXCEPT !.st = Append(@, Frame(o[1], o[2])), !.sz = @ + 1]
 
-ElseC == /\ g.ph # "done" /\ Top.t = "ife" /\ ~Top.el
+ElseC == /\ g.ph \in {"base", "ovr"} /\ Top.t = "ife" /\ ~Top.el
          /\ g' = [g EXCEPT !.st[Len(g.st)].el = TRUE]
 
-CloseC == /\ g.ph # "done" /\ Len(g.st) > 1
+CloseC == /\ g.ph \in {"base", "ovr"} /\ Len(g.st) > 1
           /\ Top.t = "ife" => Top.el
           /\ Top.t = "each" => Top.a # <<>>
           /\ LET x == Nd(Top.t, Top.n, Top.a, Top.b)
@@ -221,14 +221,73 @@ DataFor(tpl) ==
                    v \in PFun(uv, VOpt), c \in PFun(uc, COpt), l \in PFun(ul, LOpt)}
   IN plain \cup (IF TRUE \in NoiseOpts THEN {AddNoise(d, tpl) : d \in plain} ELSE {})
 
+\* The data are chosen one name at a time (phase "data"): g.todo is the list of open choices
+\*   <<"var", n>>  <<"cond", n>>  <<"list", n>>  <<"fld", list, i, field>>  <<"alt", list>>  <<"noise">>
+\* so that BFS reaches every element of DataFor(tpl) exactly once and a random walk samples one
+\* without enumerating the product.
+ItemFields(tpl) == Used(tpl, {"fld"}, Flds) \cup Used(tpl, CondKinds, QFlds) \cup Used(tpl, {"each"}, SubS \cup SubM)
+
+FieldOpts(tpl, f) ==
+  IF f \in Flds THEN {V(a) : a \in FldVals}
+  ELSE IF f \in QFlds THEN {V(a) : a \in CondVals}
+  ELSE IF f \in SubS THEN {L(l) : l \in NestedScalarLists}
+  ELSE {L(l) : l \in MapLists(InnerItems(tpl), AltInner)}
+
+Slots(tpl) ==
+  SetToSeq({<<"var", n>> : n \in Used(tpl, {"var"}, Vars)})
+  \o SetToSeq({<<"cond", n>> : n \in Used(tpl, CondKinds, Conds)})
+  \o SetToSeq({<<"list", n>> : n \in Used(tpl, {"each"}, SLists \cup MLists)})
+  \o (IF TRUE \in NoiseOpts THEN << <<"noise">> >> ELSE <<>>)
+
+FldSlots(tpl, n, i) == SetToSeq({<<"fld", n, i, f>> : f \in ItemFields(tpl)})
+
+\* an option is [a |-> absent?, v |-> value]
+Opt(a, v) == [a |-> a, v |-> v]
+SlotOpts(tpl, s) ==
+  CASE s[1] = "var"   -> {Opt(TRUE, "")} \cup {Opt(FALSE, v) : v \in VarVals}
+    [] s[1] = "cond"  -> {Opt(TRUE, FALSE), Opt(FALSE, FALSE), Opt(FALSE, TRUE)}
+    [] s[1] = "list" /\ s[2] \in SLists -> {Opt(TRUE, <<>>)} \cup {Opt(FALSE, l) : l \in ScalarLists(ThisVals)}
+    [] s[1] = "list" /\ s[2] \in MLists -> {Opt(TRUE, 0), Opt(FALSE, 0), Opt(FALSE, 1), Opt(FALSE, 2)}
+    [] s[1] = "fld"   -> {Opt(TRUE, IF s[4] \in Flds \cup QFlds THEN V("") ELSE L(<<>>))}
+                          \cup {Opt(FALSE, fv) : fv \in FieldOpts(tpl, s[4])}
+    [] s[1] = "alt"   -> {Opt(FALSE, 0)}
+    [] s[1] = "noise" -> {Opt(FALSE, FALSE), Opt(FALSE, TRUE)}
+
+\* the state after choosing option o for slot s (rest = the remaining slots)
+Choose(s, o, rest) ==
+  LET d == g.d
+      tpl == g.tpl
+      d2 == CASE s[1] = "var"  -> IF o.a THEN d ELSE [d EXCEPT !.vars = (s[2] :> o.v) @@ @]
+              [] s[1] = "cond" -> IF o.a THEN d ELSE [d EXCEPT !.conds = (s[2] :> o.v) @@ @]
+              [] s[1] = "list" /\ s[2] \in SLists -> IF o.a THEN d ELSE [d EXCEPT !.lists = (s[2] :> o.v) @@ @]
+              [] s[1] = "list" /\ s[2] \in MLists ->
+                   IF o.a THEN d ELSE [d EXCEPT !.lists = (s[2] :> [i \in 1..o.v |-> M(<<>>)]) @@ @]
+              [] s[1] = "fld"  -> IF o.a THEN d
+                                  ELSE [d EXCEPT !.lists[s[2]][s[3]] = M((s[4] :> o.v) @@ @.f)]
+              [] s[1] = "alt"  -> [d EXCEPT !.lists[s[2]] = <<@[1], AltOuter(@[1])>>]
+              [] s[1] = "noise" -> IF o.v THEN AddNoise(d, tpl) ELSE d
+      more == IF s[1] = "list" /\ s[2] \in MLists /\ ~o.a
+              THEN (IF o.v = 0 THEN <<>>
+                    ELSE IF o.v = 1 THEN FldSlots(tpl, s[2], 1)
+                    ELSE IF Full2 THEN FldSlots(tpl, s[2], 1) \o FldSlots(tpl, s[2], 2)
+                    ELSE FldSlots(tpl, s[2], 1) \o << <<"alt", s[2]>> >>)
+              ELSE <<>>
+      todo == more \o rest
+  IN [g EXCEPT !.d = d2, !.todo = todo, !.ph = IF todo = <<>> THEN "done" ELSE "data"]
+
 Finish == /\ g.ph \in {"base", "ovr"} /\ Len(g.st) = 1
           /\ g.sz >= 1 /\ g.sz >= MinNodes
           /\ LET tpl == IF g.ph = "base" THEN [body |-> Top.a, ext |-> FALSE, ovr |-> <<>>]
                         ELSE [body |-> g.base, ext |-> TRUE, ovr |-> Top.a]
-             IN \E d \in DataFor(tpl) :
-                  g' = [g EXCEPT !.ph = "done", !.tpl = tpl, !.d = d, !.st = <<Frame("top", "")>>, !.base = <<>>]
+                 todo == Slots(tpl)
+             IN g' = [g EXCEPT !.ph = IF todo = <<>> THEN "done" ELSE "data", !.tpl = tpl,
+                               !.d = [NoData EXCEPT !.imgs = Used(tpl, {"img"}, Imgs)],
+                               !.todo = todo, !.st = <<Frame("top", "")>>, !.base = <<>>]
 
-Next == AddLeaf \/ OpenC \/ ElseC \/ CloseC \/ StartOvr \/ Finish
+Fill == /\ g.ph = "data"
+        /\ \E o \in SlotOpts(g.tpl, Head(g.todo)) : g' = Choose(Head(g.todo), o, Tail(g.todo))
+
+Next == AddLeaf \/ OpenC \/ ElseC \/ CloseC \/ StartOvr \/ Finish \/ Fill
 Spec == Init /\ [][Next]_vars
 
 Done == g.ph = "done"
@@ -313,6 +372,9 @@ Act_Compositional ==
        IN \A d \in DataFor(t1) :
             /\ RenderRaw(t1, d) = RenderRaw(t0, d) \o RNode(x, d, <<>>)
             /\ x.t = "lit" => RNode(x, d, <<>>) = <<"L:" \o x.n>>]_vars
+
+\* the data built one name at a time are exactly elements of the set DataFor(tpl)
+Inv_Data == Done => D \in DataFor(T)
 
 \* the normal form only ever removes an all-blank output
 Inv_Norm == Done => LET r == RenderRaw(T, D) IN Render(T, D) = r \/ (Render(T, D) = <<>> /\ \A i \in 1..Len(r) : BlankTok(r[i]))
